@@ -1,5 +1,722 @@
-//! (stub)
+//! C11 — no safe operation ever yields an invalid hash object.
+//!
+//! Explicit-state search over a *register file* holding one real object per
+//! type.  Actions are safe public operations (parse, construct from internals
+//! with in- and out-of-contract arguments, normalise, convert between
+//! registers whose destinations keep their previous content, dual compress /
+//! expand, comparison-target and position-array initialisation, a generator
+//! result).  Invariant in every state: every register passes its validity
+//! check (library's and the reference predicate); structural equality and
+//! Debug formatting never panic.
+
 use crate::common::*;
-use serde_json::Value;
-pub fn replay(_c: &Value) -> Result<(), String> { Err("not implemented".into()) }
-pub fn run(_ctx: &Ctx) -> Report { Report::new("model_checking") }
+use crate::corpus::ramp;
+use crate::explore;
+use crate::hashobj::*;
+use serde_json::{json, Value};
+use ssdeep::internal_comparison::{BlockHashPositionArray, BlockHashPositionArrayData};
+use ssdeep::{
+    DualFuzzyHash, FuzzyHash, FuzzyHashCompareTarget, Generator, LongDualFuzzyHash, LongFuzzyHash, LongRawFuzzyHash,
+    RawFuzzyHash,
+};
+use stateright::{Model, Property};
+use std::hash::{Hash, Hasher};
+use std::sync::atomic::{AtomicU64, Ordering as AO};
+
+static TRANSITIONS: AtomicU64 = AtomicU64::new(0);
+static EXPECTED_PANICS: AtomicU64 = AtomicU64::new(0);
+
+#[derive(Clone, Debug)]
+pub struct Regs {
+    rs: RawFuzzyHash,
+    rl: LongRawFuzzyHash,
+    ns: FuzzyHash,
+    nl: LongFuzzyHash,
+    ds: DualFuzzyHash,
+    dl: LongDualFuzzyHash,
+    ct: FuzzyHashCompareTarget,
+    /// the position array is not `Clone`: it is rebuilt from its operation history
+    pa_ops: Vec<PaOp>,
+    bad: Option<String>,
+}
+
+#[derive(Clone, Debug, PartialEq, Eq)]
+pub enum PaOp {
+    Init(Vec<u8>),
+    Clear,
+}
+
+fn build_pa(ops: &[PaOp]) -> Result<BlockHashPositionArray, String> {
+    let mut pa = BlockHashPositionArray::new();
+    for op in ops {
+        match op {
+            PaOp::Init(v) => guarded(|| pa.init_from(v))?,
+            PaOp::Clear => guarded(|| pa.clear())?,
+        }
+    }
+    Ok(pa)
+}
+
+impl Regs {
+    fn new() -> Self {
+        Regs {
+            rs: RawFuzzyHash::new(),
+            rl: LongRawFuzzyHash::new(),
+            ns: FuzzyHash::new(),
+            nl: LongFuzzyHash::new(),
+            ds: DualFuzzyHash::new(),
+            dl: LongDualFuzzyHash::new(),
+            ct: FuzzyHashCompareTarget::new(),
+            pa_ops: vec![],
+            bad: None,
+        }
+    }
+    fn key(&self) -> String {
+        let pa = build_pa(&self.pa_ops).map(|p| format!("{:?}", p)).unwrap_or_else(|e| e);
+        format!(
+            "{:?}|{:?}|{:?}|{:?}|{:?}|{:?}|{:?}|{}|{}",
+            self.rs, self.rl, self.ns, self.nl, self.ds, self.dl, self.ct, pa, self.bad.is_some()
+        )
+    }
+}
+impl PartialEq for Regs {
+    fn eq(&self, o: &Self) -> bool {
+        self.key() == o.key()
+    }
+}
+impl Eq for Regs {}
+impl Hash for Regs {
+    fn hash<H: Hasher>(&self, h: &mut H) {
+        self.key().hash(h)
+    }
+}
+
+/// The invariant.  `Err` describes the first failing register.
+pub fn invariant(s: &Regs) -> Result<(), String> {
+    if let Some(b) = &s.bad {
+        return Err(b.clone());
+    }
+    macro_rules! plain {
+        ($r:expr, $n:expr) => {{
+            let r = &$r;
+            let v = guarded(|| r.is_valid()).map_err(|p| format!("{}: is_valid panicked: {}", $n, p))?;
+            let dbg = guarded(|| format!("{:?}", r)).map_err(|p| format!("{}: Debug panicked: {}", $n, p))?;
+            if !v || !r.ref_valid() {
+                return Err(format!("{} register is invalid: {}", $n, dbg));
+            }
+            if !guarded(|| r.full_eq(r)).map_err(|p| format!("{}: full_eq panicked: {}", $n, p))? {
+                return Err(format!("{}: full_eq not reflexive", $n));
+            }
+        }};
+    }
+    plain!(s.rs, "RawFuzzyHash");
+    plain!(s.rl, "LongRawFuzzyHash");
+    plain!(s.ns, "FuzzyHash");
+    plain!(s.nl, "LongFuzzyHash");
+    macro_rules! dual {
+        ($r:expr, $n:expr) => {{
+            let r = &$r;
+            let v = guarded(|| r.is_valid()).map_err(|p| format!("{}: is_valid panicked: {}", $n, p))?;
+            let dbg = guarded(|| format!("{:?}", r)).map_err(|p| format!("{}: Debug panicked: {}", $n, p))?;
+            if !v {
+                return Err(format!("{} register is invalid: {}", $n, dbg));
+            }
+            // canonical RLE data: decompressing and compressing again gives the same object
+            let raw = guarded(|| r.to_raw_form()).map_err(|p| format!("{}: to_raw_form panicked: {}", $n, p))?;
+            if !raw.is_valid() || !raw.ref_valid() || !r.as_normalized().ref_valid() {
+                return Err(format!("{}: raw / normalized part invalid: {}", $n, dbg));
+            }
+        }};
+    }
+    dual!(s.ds, "DualFuzzyHash");
+    dual!(s.dl, "LongDualFuzzyHash");
+    let ctv = guarded(|| s.ct.is_valid()).map_err(|p| format!("CompareTarget: is_valid panicked: {}", p))?;
+    guarded(|| format!("{:?}", s.ct)).map_err(|p| format!("CompareTarget: Debug panicked: {}", p))?;
+    if !ctv || !guarded(|| s.ct.full_eq(&s.ct))? {
+        return Err(format!("FuzzyHashCompareTarget register is invalid: {:?}", s.ct));
+    }
+    let pa = build_pa(&s.pa_ops).map_err(|p| format!("PositionArray: operation panicked: {}", p))?;
+    if !guarded(|| pa.is_valid())? {
+        return Err(format!("BlockHashPositionArray register is invalid: {:?}", pa));
+    }
+    Ok(())
+}
+
+// ------------------------------------------------------------------ action menu
+
+fn texts() -> Vec<Vec<u8>> {
+    let b = |v: Vec<u8>| -> Vec<u8> { v.iter().map(|&x| refmodel::B64[x as usize]).collect() };
+    let mut t2 = b"6:".to_vec();
+    t2.extend(b(ramp(64, 0)));
+    t2.push(b':');
+    t2.extend(b(ramp(32, 5)));
+    let mut t3 = b"6:".to_vec();
+    t3.extend(vec![b'A'; 64]);
+    t3.push(b':');
+    t3.extend(vec![b'/'; 64]);
+    let mut t4 = b"3221225472:".to_vec();
+    t4.extend(b(ramp(40, 0)));
+    t4.push(b':');
+    t4.extend(b(ramp(40, 9)));
+    let mut t7 = b"3:".to_vec();
+    t7.extend(vec![b'A'; 70]);
+    t7.extend(b":".iter());
+    t7.extend(vec![b'B'; 36]);
+    vec![
+        b"3::".to_vec(),
+        b"3:AAAABBBB:CCCCDDDD".to_vec(),
+        t2,
+        t3,
+        t4,
+        b"12:AAAAAAAAB:///////,x".to_vec(),
+        b"4:A:B".to_vec(),
+        t7,
+    ]
+}
+
+#[derive(Clone, Copy, Debug, PartialEq, Eq, Hash)]
+pub enum Act {
+    Parse(u8, u8),          // register 0..6, text
+    NearRaw(u8, u8),        // plain register 0..4, argument set
+    FromInternals(u8, u8),  // plain register, argument set (block size form)
+    InitRaw(u8, u8),        // plain register, array argument set (into the existing object)
+    NewRaw(u8, u8),         // plain register, array argument set (fresh object)
+    DualNearRaw(u8, u8),    // dual register 0..2, argument set
+    Normalize(u8),          // register 0..6
+    Conv(u8),               // conversion between registers
+    Target(u8),             // compare target init
+    Pa(u8),                 // position array op
+    Gen(u8),                // generator result into a register
+}
+
+/// (log or block-size index, bh1, bh2); in- and out-of-contract
+fn arg_sets() -> Vec<(u8, Vec<u8>, Vec<u8>)> {
+    vec![
+        (0, vec![1, 2, 3], vec![4]),
+        (0, vec![64], vec![]),
+        (0, vec![1, 255], vec![2]),
+        (0, vec![1; 65], vec![]),
+        (0, vec![], ramp(33, 0)),
+        (0, vec![5, 5, 5, 5], vec![]),
+        (31, vec![1], vec![1]),
+        (30, ramp(64, 0), ramp(32, 0)),
+        (0, vec![], vec![9, 9, 9, 9, 9, 9]),
+        (0, vec![], vec![1; 65]),
+    ]
+}
+/// array argument sets: (log, bh1 array 64, bh2 array 64 (cut to the type), len1, len2)
+fn array_sets() -> Vec<(u8, Vec<u8>, Vec<u8>, u8, u8)> {
+    let z = |v: Vec<u8>| {
+        let mut a = v;
+        a.resize(64, 0);
+        a
+    };
+    let mut dirty_tail = z(vec![1, 2, 3]);
+    dirty_tail[10] = 7;
+    let mut sym64 = z(vec![1, 64, 3]);
+    sym64[1] = 64;
+    vec![
+        (3, z(vec![1, 2, 3]), z(vec![4, 5]), 3, 2),
+        (3, dirty_tail.clone(), z(vec![]), 3, 0),
+        (3, z(vec![]), { let mut t = z(vec![1]); t[31] = 1; t }, 0, 1),
+        (3, z(ramp(64, 0)), z(vec![]), 65, 0),
+        (3, z(vec![]), z(ramp(32, 0)), 0, 33),
+        (3, sym64, z(vec![]), 3, 0),
+        (3, z(vec![6, 6, 6, 6, 6]), z(vec![]), 5, 0),
+        (31, z(vec![1]), z(vec![]), 1, 0),
+        (30, z(ramp(64, 0)), z(ramp(32, 0)), 64, 32),
+        (3, z(vec![]), z(vec![200, 200]), 0, 0),
+    ]
+}
+
+const N_CONV: u8 = 24;
+
+pub struct Menu {
+    texts: Vec<Vec<u8>>,
+    args: Vec<(u8, Vec<u8>, Vec<u8>)>,
+    arrays: Vec<(u8, Vec<u8>, Vec<u8>, u8, u8)>,
+    actions: Vec<Act>,
+}
+
+impl Menu {
+    pub fn new(full: bool) -> Self {
+        let texts = texts();
+        let args = arg_sets();
+        let arrays = array_sets();
+        let mut actions = vec![];
+        for r in 0..6u8 {
+            for t in 0..texts.len() as u8 {
+                if full || r < 2 || t == 1 || t == 3 || t == 4 || t == 7 || (r >= 4 && t == 5) {
+                    actions.push(Act::Parse(r, t));
+                }
+            }
+        }
+        for r in 0..4u8 {
+            for a in 0..args.len() as u8 {
+                if full || a == 0 || a == 7 || a == 5 {
+                    actions.push(Act::NearRaw(r, a));
+                }
+                if full {
+                    actions.push(Act::FromInternals(r, a));
+                }
+            }
+            for a in 0..arrays.len() as u8 {
+                actions.push(Act::InitRaw(r, a));
+                if full {
+                    actions.push(Act::NewRaw(r, a));
+                }
+            }
+        }
+        for r in 0..2u8 {
+            for a in 0..args.len() as u8 {
+                if full || a == 5 || a == 8 || a == 7 {
+                    actions.push(Act::DualNearRaw(r, a));
+                }
+            }
+        }
+        for r in 0..6u8 {
+            actions.push(Act::Normalize(r));
+        }
+        for c in 0..N_CONV {
+            actions.push(Act::Conv(c));
+        }
+        for t in 0..4u8 {
+            actions.push(Act::Target(t));
+        }
+        for p in 0..5u8 {
+            actions.push(Act::Pa(p));
+        }
+        for g in 0..(if full { 4u8 } else { 2 }) {
+            actions.push(Act::Gen(g));
+        }
+        Menu { texts, args, arrays, actions }
+    }
+}
+
+fn arr<const N: usize>(v: &[u8]) -> [u8; N] {
+    let mut a = [0u8; N];
+    a.copy_from_slice(&v[..N]);
+    a
+}
+
+/// Apply one action.  Out-of-contract constructor calls may panic (counted);
+/// then the state must be unchanged and still valid.  `None` = no change.
+pub fn apply(m: &Menu, s: &Regs, act: Act) -> Option<Regs> {
+    let mut n = s.clone();
+    let panicked = |p: String, in_contract: bool, what: &str, n: &Regs| -> Option<Regs> {
+        if in_contract {
+            let mut b = n.clone();
+            b.bad = Some(format!("{} panicked on in-contract arguments: {}", what, p));
+            Some(b)
+        } else {
+            EXPECTED_PANICS.fetch_add(1, AO::Relaxed);
+            // a refused call must leave every register as it was (checked through the key)
+            Some(n.clone())
+        }
+    };
+    macro_rules! assign_plain {
+        ($reg:ident, $call:expr, $in_contract:expr, $what:expr) => {{
+            match guarded(|| $call) {
+                Ok(v) => {
+                    n.$reg = v;
+                    Some(n)
+                }
+                Err(p) => panicked(p, $in_contract, $what, &n),
+            }
+        }};
+    }
+    match act {
+        Act::Parse(r, t) => {
+            let txt = &m.texts[t as usize];
+            macro_rules! p {
+                ($reg:ident, $ty:ty) => {{
+                    match guarded(|| <$ty>::from_bytes(txt)) {
+                        Ok(Ok(v)) => {
+                            n.$reg = v;
+                            Some(n)
+                        }
+                        Ok(Err(_)) => None,
+                        Err(p) => {
+                            n.bad = Some(format!("{}::from_bytes panicked on {}: {}", stringify!($ty), show(txt), p));
+                            Some(n)
+                        }
+                    }
+                }};
+            }
+            match r {
+                0 => p!(rs, RawFuzzyHash),
+                1 => p!(rl, LongRawFuzzyHash),
+                2 => p!(ns, FuzzyHash),
+                3 => p!(nl, LongFuzzyHash),
+                4 => p!(ds, DualFuzzyHash),
+                _ => p!(dl, LongDualFuzzyHash),
+            }
+        }
+        Act::NearRaw(r, a) | Act::FromInternals(r, a) => {
+            let (log, b1, b2) = &m.args[a as usize];
+            let by_size = matches!(act, Act::FromInternals(..));
+            let bs: u32 = if *log < 31 { 3u32 << *log } else { 4 };
+            macro_rules! c {
+                ($reg:ident, $ty:ty, $cap2:expr, $norm:expr) => {{
+                    let in_contract = *log < 31
+                        && b1.len() <= 64
+                        && b2.len() <= $cap2
+                        && b1.iter().chain(b2.iter()).all(|&x| x < 64)
+                        && (!$norm || (refmodel::is_normalized(b1) && refmodel::is_normalized(b2)));
+                    if by_size {
+                        assign_plain!($reg, <$ty>::new_from_internals(bs, b1, b2), in_contract, "new_from_internals")
+                    } else {
+                        assign_plain!($reg, <$ty>::new_from_internals_near_raw(*log, b1, b2), in_contract, "new_from_internals_near_raw")
+                    }
+                }};
+            }
+            match r {
+                0 => c!(rs, RawFuzzyHash, 32, false),
+                1 => c!(rl, LongRawFuzzyHash, 64, false),
+                2 => c!(ns, FuzzyHash, 32, true),
+                _ => c!(nl, LongFuzzyHash, 64, true),
+            }
+        }
+        Act::InitRaw(r, a) | Act::NewRaw(r, a) => {
+            let (log, a1, a2, l1, l2) = &m.arrays[a as usize];
+            let fresh = matches!(act, Act::NewRaw(..));
+            macro_rules! c {
+                ($reg:ident, $ty:ty, $cap2:expr, $norm:expr) => {{
+                    let x1: [u8; 64] = arr(a1);
+                    let x2: [u8; $cap2] = arr(a2);
+                    let in_contract = *log < 31
+                        && (*l1 as usize) <= 64
+                        && (*l2 as usize) <= $cap2
+                        && refmodel::plain_valid(*log, &x1, *l1 as usize, &x2, *l2 as usize, $norm);
+                    if fresh {
+                        assign_plain!($reg, <$ty>::new_from_internals_raw(*log, &x1, &x2, *l1, *l2), in_contract, "new_from_internals_raw")
+                    } else {
+                        let mut obj = n.$reg;
+                        match guarded(|| obj.init_from_internals_raw(*log, &x1, &x2, *l1, *l2)) {
+                            Ok(()) => {
+                                n.$reg = obj;
+                                Some(n)
+                            }
+                            Err(p) => {
+                                // the object the call was made on is observable after the panic
+                                n.$reg = obj;
+                                panicked(p, in_contract, "init_from_internals_raw", &n)
+                            }
+                        }
+                    }
+                }};
+            }
+            match r {
+                0 => c!(rs, RawFuzzyHash, 32, false),
+                1 => c!(rl, LongRawFuzzyHash, 64, false),
+                2 => c!(ns, FuzzyHash, 32, true),
+                _ => c!(nl, LongFuzzyHash, 64, true),
+            }
+        }
+        Act::DualNearRaw(r, a) => {
+            let (log, b1, b2) = &m.args[a as usize];
+            macro_rules! c {
+                ($reg:ident, $ty:ty, $cap2:expr) => {{
+                    let in_contract = *log < 31 && b1.len() <= 64 && b2.len() <= $cap2 && b1.iter().chain(b2.iter()).all(|&x| x < 64);
+                    assign_plain!($reg, <$ty>::new_from_internals_near_raw(*log, b1, b2), in_contract, "dual new_from_internals_near_raw")
+                }};
+            }
+            match r {
+                0 => c!(ds, DualFuzzyHash, 32),
+                _ => c!(dl, LongDualFuzzyHash, 64),
+            }
+        }
+        Act::Normalize(r) => {
+            let res = match r {
+                0 => guarded(|| n.rs.normalize_in_place()),
+                1 => guarded(|| n.rl.normalize_in_place()),
+                2 => guarded(|| n.ns.normalize_in_place()),
+                3 => guarded(|| n.nl.normalize_in_place()),
+                4 => guarded(|| n.ds.normalize_in_place()),
+                _ => guarded(|| n.dl.normalize_in_place()),
+            };
+            if let Err(p) = res {
+                n.bad = Some(format!("normalize_in_place panicked: {}", p));
+            }
+            Some(n)
+        }
+        Act::Conv(c) => {
+            let res: Result<(), String> = match c {
+                0 => guarded(|| s.rs.into_mut_long_form(&mut n.rl)),
+                1 => guarded(|| { let _ = s.rl.try_into_mut_short(&mut n.rs); }),
+                2 => guarded(|| s.ns.into_mut_long_form(&mut n.nl)),
+                3 => guarded(|| { let _ = s.nl.try_into_mut_short(&mut n.ns); }),
+                4 => guarded(|| s.ns.into_mut_raw_form(&mut n.rs)),
+                5 => guarded(|| s.nl.into_mut_raw_form(&mut n.rl)),
+                6 => guarded(|| n.ns = s.rs.normalize()),
+                7 => guarded(|| n.nl = s.rl.normalize()),
+                8 => guarded(|| n.ds.init_from_raw_form(&s.rs)),
+                9 => guarded(|| n.dl.init_from_raw_form(&s.rl)),
+                10 => guarded(|| s.ds.into_mut_raw_form(&mut n.rs)),
+                11 => guarded(|| s.dl.into_mut_raw_form(&mut n.rl)),
+                12 => guarded(|| n.ds = DualFuzzyHash::from_normalized(&s.ns)),
+                13 => guarded(|| n.dl = LongDualFuzzyHash::from_normalized(&s.nl)),
+                14 => guarded(|| n.ns = s.ds.to_normalized()),
+                15 => guarded(|| n.nl = *s.dl.as_normalized()),
+                16 => guarded(|| n.rl = LongRawFuzzyHash::from(s.ns)),
+                17 => guarded(|| n.rs = s.rs.clone_normalized()),
+                18 => guarded(|| n.rl = s.rs.to_long_form()),
+                19 => guarded(|| n.nl = s.ns.to_long_form()),
+                20 => guarded(|| n.rs = s.ns.to_raw_form()),
+                21 => guarded(|| { if let Ok(v) = RawFuzzyHash::try_from(s.rl) { n.rs = v; } }),
+                22 => guarded(|| { if let Ok(v) = FuzzyHash::try_from(s.nl) { n.ns = v; } }),
+                _ => guarded(|| n.rs = s.ds.to_raw_form()),
+            };
+            if let Err(p) = res {
+                n.bad = Some(format!("conversion {} panicked: {}", c, p));
+            }
+            Some(n)
+        }
+        Act::Target(t) => {
+            let res = match t {
+                0 => guarded(|| n.ct.init_from(&s.ns)),
+                1 => guarded(|| n.ct.init_from(&s.nl)),
+                2 => guarded(|| n.ct.init_from(&s.ds)),
+                _ => guarded(|| n.ct = FuzzyHashCompareTarget::from(&s.dl)),
+            };
+            if let Err(p) = res {
+                n.bad = Some(format!("compare target init panicked: {}", p));
+            }
+            Some(n)
+        }
+        Act::Pa(p) => {
+            let op = match p {
+                0 => PaOp::Init(s.ns.block_hash_1().to_vec()),
+                1 => PaOp::Init(s.rs.block_hash_2().to_vec()),
+                2 => PaOp::Init(s.rl.block_hash_2().to_vec()),
+                3 => PaOp::Init(s.nl.block_hash_1().to_vec()),
+                _ => PaOp::Clear,
+            };
+            // only the operations since the last full re-initialisation matter for rebuilding,
+            // but the dirty history is the point: keep the last two
+            n.pa_ops.push(op);
+            if n.pa_ops.len() > 3 {
+                n.pa_ops.remove(0);
+            }
+            Some(n)
+        }
+        Act::Gen(g) => {
+            let mut gen = Generator::new();
+            let data: Vec<u8> = match g {
+                0 => b"Hello, World!\n".to_vec(),
+                1 => crate::corpus::repeat(&crate::corpus::W[1], 70),
+                2 => crate::corpus::repeat(&crate::corpus::W[0], 200),
+                _ => vec![0xaa; 5000],
+            };
+            gen.update(&data);
+            let res = guarded(|| {
+                if g % 2 == 0 {
+                    gen.finalize().map(|h| n.rs = h).ok();
+                } else {
+                    gen.finalize_without_truncation().map(|h| n.rl = h).ok();
+                }
+            });
+            if let Err(p) = res {
+                n.bad = Some(format!("generator finalize panicked: {}", p));
+            }
+            Some(n)
+        }
+    }
+}
+
+pub struct RegModel {
+    pub menu: Menu,
+    pub max_depth: usize,
+}
+
+#[derive(Clone, Debug)]
+pub struct DSt {
+    regs: Regs,
+    depth: usize,
+    /// cached canonical key: the Debug rendering of every register
+    key: std::sync::Arc<String>,
+}
+impl DSt {
+    fn new(regs: Regs, depth: usize) -> Self {
+        let key = std::sync::Arc::new(regs.key());
+        DSt { regs, depth, key }
+    }
+}
+impl PartialEq for DSt {
+    fn eq(&self, o: &Self) -> bool {
+        self.key == o.key
+    }
+}
+impl Eq for DSt {}
+impl Hash for DSt {
+    fn hash<H: Hasher>(&self, h: &mut H) {
+        self.key.hash(h)
+    }
+}
+
+impl Model for RegModel {
+    type State = DSt;
+    type Action = Act;
+    fn init_states(&self) -> Vec<DSt> {
+        vec![DSt::new(Regs::new(), 0)]
+    }
+    fn actions(&self, s: &DSt, a: &mut Vec<Act>) {
+        if s.depth < self.max_depth && s.regs.bad.is_none() {
+            a.extend(self.menu.actions.iter().copied());
+        }
+    }
+    fn next_state(&self, s: &DSt, act: Act) -> Option<DSt> {
+        TRANSITIONS.fetch_add(1, AO::Relaxed);
+        apply(&self.menu, &s.regs, act).map(|r| DSt::new(r, s.depth + 1))
+    }
+    fn properties(&self) -> Vec<Property<Self>> {
+        vec![Property::always("every-register-is-valid", |_m, s: &DSt| invariant(&s.regs).is_ok())]
+    }
+}
+
+fn act_json(a: &Act) -> Value {
+    json!(format!("{:?}", a))
+}
+fn act_parse(s: &str) -> Option<Act> {
+    let (name, rest) = s.split_once('(')?;
+    let nums: Vec<u8> = rest.trim_end_matches(')').split(',').filter_map(|x| x.trim().parse().ok()).collect();
+    Some(match (name, nums.as_slice()) {
+        ("Parse", [a, b]) => Act::Parse(*a, *b),
+        ("NearRaw", [a, b]) => Act::NearRaw(*a, *b),
+        ("FromInternals", [a, b]) => Act::FromInternals(*a, *b),
+        ("InitRaw", [a, b]) => Act::InitRaw(*a, *b),
+        ("NewRaw", [a, b]) => Act::NewRaw(*a, *b),
+        ("DualNearRaw", [a, b]) => Act::DualNearRaw(*a, *b),
+        ("Normalize", [a]) => Act::Normalize(*a),
+        ("Conv", [a]) => Act::Conv(*a),
+        ("Target", [a]) => Act::Target(*a),
+        ("Pa", [a]) => Act::Pa(*a),
+        ("Gen", [a]) => Act::Gen(*a),
+        _ => return None,
+    })
+}
+
+fn run_path(path: &[Act]) -> Result<(), String> {
+    let menu = Menu::new(true);
+    let mut s = Regs::new();
+    invariant(&s)?;
+    for (i, a) in path.iter().enumerate() {
+        if let Some(n) = apply(&menu, &s, *a) {
+            s = n;
+        }
+        invariant(&s).map_err(|e| format!("after step {} ({:?}): {}", i + 1, a, e))?;
+    }
+    Ok(())
+}
+
+pub fn replay(c: &Value) -> Result<(), String> {
+    let path: Vec<Act> = c["path"]
+        .as_array()
+        .ok_or("path")?
+        .iter()
+        .map(|v| v.as_str().and_then(act_parse).ok_or("bad action"))
+        .collect::<Result<_, _>>()?;
+    run_path(&path)
+}
+
+pub fn run(ctx: &Ctx) -> Report {
+    let mut rep = Report::new("model_checking");
+    let thorough = ctx.tier == Tier::Thorough;
+    // depth-1 sweep with the full menu (every constructor with every in / out-of-contract argument
+    // set) from the initial state and from three populated base states
+    let full = Menu::new(true);
+    let bases: Vec<Vec<Act>> = vec![
+        vec![],
+        vec![Act::Parse(0, 2), Act::Parse(1, 3), Act::Parse(2, 2), Act::Parse(3, 4)],
+        vec![Act::Parse(1, 4), Act::Parse(5, 3), Act::Parse(4, 1), Act::Conv(0), Act::Target(1), Act::Pa(2)],
+        vec![Act::NearRaw(0, 7), Act::NearRaw(1, 7), Act::NearRaw(2, 7), Act::NearRaw(3, 7), Act::Conv(8), Act::Conv(9)],
+    ];
+    let mut acc = Acc::default();
+    for base in &bases {
+        let mut s = Regs::new();
+        for a in base {
+            if let Some(n) = apply(&full, &s, *a) {
+                s = n;
+            }
+        }
+        for a in &full.actions {
+            acc.evaluations += 1;
+            acc.nontrivial += 1;
+            let n = apply(&full, &s, *a).unwrap_or_else(|| s.clone());
+            if let Err(e) = invariant(&n) {
+                let mut path = base.clone();
+                path.push(*a);
+                acc.violation(
+                    format!("{:?} after {} base steps", a, base.len()),
+                    e,
+                    json!({"path": path.iter().map(act_json).collect::<Vec<_>>()}),
+                );
+            }
+        }
+    }
+    acc.sample(json!({"path": ["Parse(1, 3)", "Conv(1)"]}));
+    acc.into_report(&mut rep, "depth1_full_menu_from_base_states");
+
+    // bounded BFS with the reduced menu (depth 3 quick; 4 thorough) — stateright + own BFS
+    let depth: usize = std::env::var("MC_C11_DEPTH").ok().and_then(|v| v.parse().ok()).unwrap_or(ctx.tier.pick(3usize, 4));
+    let cap = ctx.tier.pick(400_000usize, 6_000_000);
+    TRANSITIONS.store(0, AO::Relaxed);
+    EXPECTED_PANICS.store(0, AO::Relaxed);
+    let menu_full_in_bfs = false;
+    let _ = thorough;
+    let sr = explore::run_stateright(RegModel { menu: Menu::new(menu_full_in_bfs), max_depth: depth }, 16);
+    let sr_trans = TRANSITIONS.load(AO::Relaxed);
+    let exp_panics = EXPECTED_PANICS.load(AO::Relaxed);
+    for (name, path) in &sr.discoveries {
+        rep.violation(Violation {
+            signature: format!("{} path={:?}", name, path),
+            what: run_path(path).err().unwrap_or_else(|| name.clone()),
+            case: json!({"path": path.iter().map(act_json).collect::<Vec<_>>()}),
+        });
+    }
+    // cross-check + recorded paths: own BFS one level shallower (parent pointers are memory hungry)
+    let m2 = RegModel { menu: Menu::new(false), max_depth: depth.min(3) };
+    let b = explore::bfs(&m2, cap, 400);
+    let mut traces = 0u64;
+    if let Some((name, path)) = &b.violation {
+        if sr.discoveries.is_empty() {
+            rep.violation(Violation {
+                signature: format!("{} path={:?}", name, path),
+                what: run_path(path).err().unwrap_or_else(|| name.clone()),
+                case: json!({"path": path.iter().map(act_json).collect::<Vec<_>>()}),
+            });
+        }
+    } else {
+        for p in &b.sample_paths {
+            traces += 1;
+            if let Err(e) = run_path(p) {
+                rep.violation(Violation {
+                    signature: format!("trace {:?}", p),
+                    what: e,
+                    case: json!({"path": p.iter().map(act_json).collect::<Vec<_>>()}),
+                });
+            }
+        }
+    }
+    rep.set("states", sr.unique);
+    rep.set("transitions", sr_trans);
+    rep.set("traces_validated_against_impl", traces);
+    rep.set(
+        "bfs",
+        json!({"depth_bound": depth, "menu_actions": Menu::new(menu_full_in_bfs).actions.len(), "stateright_unique": sr.unique,
+               "stateright_generated": sr.generated, "max_depth": sr.max_depth, "expected_panics_on_out_of_contract_calls": exp_panics,
+               "crosscheck_bfs": {"depth_bound": depth.min(3), "menu_actions": Menu::new(false).actions.len(), "states": b.states, "transitions": b.transitions, "capped": b.capped}}),
+    );
+    if let Some(Value::Array(a)) = rep.coverage.get_mut("samples") {
+        if let Some(p) = b.sample_paths.first() {
+            a.push(json!({"path": p.iter().map(act_json).collect::<Vec<_>>()}));
+        }
+    }
+    rep.set("exhaustive", false);
+    rep.set("exhaustive_scope", "all action sequences up to the depth bound over the stated menu (depth-bounded, not closed)");
+    rep.set(
+        "rule",
+        "register file with one object per type (4 plain, 2 dual, compare target, position array); menu: parse 8 texts (valid, run-heavy, capacity, long block hash 2, raw-overflowing, invalid) into 6 registers; new_from_internals / _near_raw / _raw / init_from_internals_raw with 10 argument sets each (in-contract, symbol 64 / 255 / 200, length over capacity, non-zero tail, un-normalised data for normalising types, invalid block size / log); normalize_in_place; 24 conversions between registers with previously used destinations; dual init / expand; compare-target init from 4 sources; position array init / clear; generator results.  Depth-1 sweep of the full menu from 4 base states + BFS to the depth bound.  Out-of-contract constructor calls may panic (counted) but must never leave an invalid object.",
+    );
+    rep
+}
